@@ -461,12 +461,12 @@ pub fn check_sequence(data: &[u8], src: SourceKind, ops: &[Op]) -> Result<(u64, 
             SourceKind::Slice => {
                 let mut r = H263Reader::from_source(data);
                 guard(|| exec(&mut r, ops, false, got, &|_| {})).map_err(|p| format!("reader panicked: {}", p))?.ok();
-                Ok(super::c15::drain_bits(&mut r))
+                Ok(drain_fast(&mut r))
             }
             SourceKind::Chunked(c) => {
                 let mut r = H263Reader::from_source(Chunked::new(data, c));
                 guard(|| exec(&mut r, ops, false, got, &|_| {})).map_err(|p| format!("reader panicked: {}", p))?.ok();
-                Ok(super::c15::drain_bits(&mut r))
+                Ok(drain_fast(&mut r))
             }
             SourceKind::Growable => {
                 let g = Growable::new();
@@ -474,7 +474,7 @@ pub fn check_sequence(data: &[u8], src: SourceKind, ops: &[Op]) -> Result<(u64, 
                 let mut r = H263Reader::from_source(g.clone());
                 let g2 = g.clone();
                 guard(|| exec(&mut r, ops, false, got, &move |b| g2.push(b))).map_err(|p| format!("reader panicked: {}", p))?.ok();
-                Ok(super::c15::drain_bits(&mut r))
+                Ok(drain_fast(&mut r))
             }
         }
     };
@@ -525,6 +525,26 @@ fn contains_commit(ops: &[Op]) -> bool {
     })
 }
 
+/// Drain the reader: 64 bits at a time while that succeeds, then bit by bit.
+fn drain_fast<R: Read>(r: &mut H263Reader<R>) -> Vec<bool> {
+    let mut out = Vec::new();
+    loop {
+        match guard(|| r.read_bits::<u64>(64)) {
+            Ok(Ok(v)) => {
+                for i in (0..64).rev() {
+                    out.push((v >> i) & 1 == 1);
+                }
+            }
+            _ => break,
+        }
+        if out.len() > 1 << 24 {
+            break;
+        }
+    }
+    out.extend(super::c15::drain_bits(r));
+    out
+}
+
 // ------------------------------------------------------------------------------------------------
 // Generators
 
@@ -553,7 +573,7 @@ fn gen_table(g: &mut Gen) -> Vec<Node> {
     nodes
 }
 
-fn gen_flat(g: &mut Gen, in_propagating_block: bool) -> Op {
+fn gen_flat(g: &mut Gen, in_propagating_block: bool, big: bool) -> Op {
     let ty = *g.pick(&Ty::ALL);
     let n_any = |g: &mut Gen, ty: Ty| -> u32 {
         match g.weighted(&[6, 2, 1]) {
@@ -567,10 +587,11 @@ fn gen_flat(g: &mut Gen, in_propagating_block: bool) -> Op {
         1 => Op::Peek(ty, n_any(g, ty)),
         2 => Op::ReadSigned(ty, n_any(g, ty).max(1)),
         3 => Op::PeekSigned(ty, n_any(g, ty).max(1)),
-        4 => Op::Skip(match g.weighted(&[5, 2, 1]) {
+        4 => Op::Skip(match g.weighted(&[5, 2, 1, if big { 6 } else { 0 }]) {
             0 => g.range(0, 16) as u32,
             1 => g.range(0, 70) as u32,
-            _ => g.range(100, 400) as u32,
+            2 => g.range(100, 400) as u32,
+            _ => g.range(1_000, 200_000) as u32,
         }),
         5 => Op::ReadU8,
         6 => Op::StartCode(false),
@@ -593,13 +614,13 @@ fn gen_flat(g: &mut Gen, in_propagating_block: bool) -> Op {
 }
 
 /// `commit_ok`: every enclosing block ends in success, so a commit may appear here.
-fn gen_ops(g: &mut Gen, max: usize, depth: u32, in_propagating_block: bool, commit_ok: bool, growable: bool) -> Vec<Op> {
+fn gen_ops(g: &mut Gen, max: usize, depth: u32, in_propagating_block: bool, commit_ok: bool, growable: bool, big: bool) -> Vec<Op> {
     let n = g.range(0, max as i64) as usize;
     let mut ops = Vec::with_capacity(n);
     for _ in 0..n {
         let k = g.weighted(&[12, if depth < 3 { 4 } else { 0 }, if commit_ok { 2 } else { 0 }, if growable && depth == 0 { 2 } else { 0 }]);
         match k {
-            0 => ops.push(gen_flat(g, in_propagating_block)),
+            0 => ops.push(gen_flat(g, in_propagating_block, big)),
             1 => {
                 let kind = *g.pick(&[BlockKind::Transaction, BlockKind::Union, BlockKind::Lookahead]);
                 let ending = match kind {
@@ -610,7 +631,7 @@ fn gen_ops(g: &mut Gen, max: usize, depth: u32, in_propagating_block: bool, comm
                 // a commit inside is only legal when this block certainly ends in success: it must
                 // not propagate inner failures and must end Ok, and it must not be a look-ahead
                 let inner_commit_ok = commit_ok && kind != BlockKind::Lookahead && ending == Ending::Ok && !propagate;
-                let inner = gen_ops(g, 6, depth + 1, propagate, inner_commit_ok, growable);
+                let inner = gen_ops(g, 6, depth + 1, propagate, inner_commit_ok, growable, big);
                 ops.push(Op::Block { kind, ops: inner, ending, propagate });
             }
             2 => ops.push(Op::Commit),
@@ -628,7 +649,17 @@ fn gen_source_bytes(g: &mut Gen, max_len: usize) -> Vec<u8> {
     let n = g.range(0, max_len as i64) as usize;
     let mut bits: Vec<bool> = Vec::with_capacity(n * 8 + 40);
     while bits.len() < n * 8 {
-        match g.weighted(&[5, 3, 2, 1]) {
+        match g.weighted(&[5, 3, 2, 1, 1]) {
+            4 => {
+                // long zero run (several bytes of zero padding), usually followed by a marker bit
+                let z = g.range(40, 200) as usize;
+                for _ in 0..z {
+                    bits.push(false);
+                }
+                if g.chance(3, 4) {
+                    bits.push(true);
+                }
+            }
             0 => {
                 let b = g.byte();
                 for i in 0..8 {
@@ -686,9 +717,25 @@ fn random_case(g: &mut Gen) -> Verdict {
         1 => SourceKind::Chunked(g.range(1, 3) as usize),
         _ => SourceKind::Growable,
     };
-    let data = gen_source_bytes(g, 24);
-    let ops = gen_ops(g, 60, 0, false, true, src == SourceKind::Growable);
-    g.describe(|| json!({"source": format!("{:?}", src), "data_hex": crate::bits::hex(&data), "ops": format!("{:?}", ops)}));
+    // most sources are short (every bit position matters); some are medium; a few are tens of
+    // kilobytes long (a short generated unit repeated) and are walked with large skips
+    let size_class = g.weighted(&[30, 8, 1]);
+    let data = match size_class {
+        0 => gen_source_bytes(g, 24),
+        1 => gen_source_bytes(g, 90),
+        _ => {
+            let unit = gen_source_bytes(g, 20);
+            let unit = if unit.is_empty() { vec![0x5A] } else { unit };
+            let reps = g.range(200, 2600) as usize;
+            let mut d = Vec::with_capacity(unit.len() * reps);
+            for _ in 0..reps {
+                d.extend_from_slice(&unit);
+            }
+            d
+        }
+    };
+    let ops = gen_ops(g, 60, 0, false, true, src == SourceKind::Growable, size_class == 2);
+    g.describe(|| json!({"source": format!("{:?}", src), "data_len": data.len(), "data_hex": crate::bits::hex(&data[..data.len().min(200)]), "ops": format!("{:?}", ops)}));
     match check_sequence(&data, src, &ops) {
         Err(m) => Verdict::fail(m),
         Ok((key, nontrivial, start_ops, rollback)) => {
@@ -703,6 +750,7 @@ fn random_case(g: &mut Gen) -> Verdict {
             if rollback {
                 l.push("has rolled-back block");
             }
+            l.push(["short source (<= 24 bytes)", "medium source (<= 90 bytes)", "long source (kilobytes)"][size_class]);
             Verdict::pass_l(nontrivial, key, l)
         }
     }
